@@ -1197,6 +1197,9 @@ class Evaluator:
                 if k == 'ok':
                     s2.env[e.target.id] = t
             return outs
+        if isinstance(e, (ast.Yield, ast.YieldFrom)):
+            # generator body evaluated as straight-line code (context managers): the yield hands control away and back
+            return [(NONE, st, 'ok')]
         raise AnalysisError('unsupported expression %s' % type(e).__name__, node=e)
 
     def _scalar_decidable(self, t, st):
